@@ -139,8 +139,15 @@ impl<'a> BlockFiltersProcess<'a> {
                     );
                     return StatusCode::Ignore.with_context(errmsg);
                 }
-                if cached_block_filter_hashes.is_empty() {
-                    let errmsg = "cached block filter hashes is empty";
+                // N.B. The cached block filter hashes are checked with the finalized check
+                // point only when they reach the next check point, so they couldn't be
+                // trusted before all of them in that check point are downloaded.
+                let cached_count = cached_block_filter_hashes.len() as BlockNumber;
+                if cached_check_point_number + cached_count != next_cached_check_point_number {
+                    let errmsg = format!(
+                        "cached block filter hashes are incomplete: {} in ({},{}]",
+                        cached_count, cached_check_point_number, next_cached_check_point_number
+                    );
                     return StatusCode::Ignore.with_context(errmsg);
                 }
                 if start_number == cached_check_point_number + 1 {
